@@ -15,8 +15,14 @@ func DrawScenario(t *Tape, property string) (*Scenario, Config) {
 	families := []string{"cloneset-partition", "deploy-canary", "deploy-partition", "deploy-bluegreen"}
 	sc.Family = families[t.Next(len(families))]
 	sizes := []int{5, 1, 2, 3, 4, 7, 10}
+	maxSteps := 4
+	if thoroughTier() {
+		// the thorough tier also widens the scenario space: larger workloads, longer plans, more disturbances
+		sizes = append(sizes, 13, 20, 30)
+		maxSteps = 6
+	}
 	sc.Replicas = sizes[t.Next(len(sizes))]
-	nSteps := 1 + t.Next(4)
+	nSteps := 1 + t.Next(maxSteps)
 	percent := t.Next(2) == 1
 	prev := 0
 	for i := 0; i < nSteps; i++ {
@@ -112,6 +118,9 @@ func DrawScenario(t *Tape, property string) (*Scenario, Config) {
 	sc.HashCompat = t.Next(2) == 1
 
 	cfg := Config{MaxSteps: 40000, MaxSimTime: 2 * time.Hour, PreemptPermyr: 2000}
+	if thoroughTier() {
+		cfg.MaxSteps, cfg.MaxSimTime = 160000, 4*time.Hour
+	}
 	cfg.Interleave = t.Next(2) == 1
 	switch t.Next(3) {
 	case 0:
@@ -276,6 +285,9 @@ var stepStates = []string{"BeforeStepUpgrade", "StepUpgrade", "StepTrafficRoutin
 // drawEvents: 0..2 scripted disturbances, each triggered when the rollout reaches a drawn (step, sub-state).
 func drawEvents(t *Tape, sc *Scenario) {
 	n := t.Pick(5, 4, 2)
+	if thoroughTier() {
+		n = t.Pick(3, 4, 3, 2)
+	}
 	kinds := []string{"scale", "rollback", "release-v3", "pause", "jump", "edit-plan", "disable", "delete-rollout", "hostile-jump", "unpause-workload", "rollback-early", "release-v3-early", "reissue-rollout-id"}
 	for i := 0; i < n; i++ {
 		ev := UserEvent{Kind: kinds[t.Next(len(kinds))]}
@@ -291,6 +303,9 @@ func drawEvents(t *Tape, sc *Scenario) {
 			ev.Arg = vals[t.Next(len(vals))]
 		case "edit-plan":
 			ev.Arg = t.Next(1000)
+		}
+		if ev.Kind == "scale" && strings.HasSuffix(sc.Family, "bluegreen") {
+			continue // resizing during a blue-green release is not supported (the controllers disable the HPA for its duration)
 		}
 		sc.Events = append(sc.Events, ev)
 		switch ev.Kind {
@@ -312,3 +327,5 @@ func pctOver(v string, limit int) bool {
 	fmt.Sscanf(v, "%d%%", &p)
 	return p > limit
 }
+
+func thoroughTier() bool { return os.Getenv("KSIM_TIER") == "thorough" }
